@@ -274,7 +274,7 @@ func TypeStressFamily(intn func(int) int, n int) []string {
 
 func typeStressHead(intn func(int) int, m, op, lbl string) string {
 	var sb strings.Builder
-	shape := intn(9)
+	shape := intn(10)
 	// base recursive (or not) type A and a partner B
 	switch shape {
 	case 0: // two isomorphic recursive types
@@ -306,6 +306,18 @@ func typeStressHead(intn func(int) int, m, op, lbl string) string {
 			fmt.Fprintf(&sb, "let g(x : %s1 %s (1 %s (1 %s A))) : %sB = y : %s1 %s B <- new fwd self x; fwd self y\n", m, bin, bin, bin, m, m, bin)
 			return sb.String() + "\x00"
 		}
+	case 9: // three names: an alias chain that leads into a cycle it is not part of
+		cyc := [][2]string{{"C", "C"}, {"C", "D"}}[intn(2)]
+		decls := []string{fmt.Sprintf("type A = %sB\n", m), fmt.Sprintf("type B = %sC\n", m), fmt.Sprintf("type C = %s%s\n", m, cyc[1])}
+		if cyc[1] == "D" {
+			decls = append(decls, fmt.Sprintf("type D = %sC\n", m))
+		}
+		if intn(2) == 1 { // declaration order matters to some walks
+			for i, j := 0, len(decls)-1; i < j; i, j = i+1, j-1 {
+				decls[i], decls[j] = decls[j], decls[i]
+			}
+		}
+		sb.WriteString(strings.Join(decls, ""))
 	case 8: // two plain structural types: equal or different, same polarity
 		bodies := []string{"1 * 1", "1 * 1", "+{" + lbl + " : 1}", "+{" + lbl + " : 1, q : 1}", "1 * (1 * 1)", "1"}
 		if op == "&" {
